@@ -283,6 +283,11 @@ def run(ctx):
           lambda x: 'solstices=%s day=%d' % (x[0], x[1]), fn_site(p, 'SixtyCycleDay::get_nine_star'))
     table(ctx, 'SIB-AGREE', 'LunarDay::get_nine_star', pts, day_star('ld'), day_orc_or_same('ld'), 'lunar-day copy agrees', lambda x: 'solstices=%s day=%d' % (x[0], x[1]), fn_site(p, 'LunarDay::get_nine_star'))
 
+    # ---- the first supported year
+    from rules import range_end as _re
+    _Ie = ctx.interp(fuel=50000000)
+    _re.c17_edge(ctx, _Ie, T(_Ie))
+
     ctx.assumptions.append('day-line model: civil days are consecutive integers (C01), pillar = (day number + 49) mod 60 and weekday = (day number + 1) mod 7 (C07)')
     ctx.not_decided.append('on which civil days the solstices fall and what their pillars are (numeric; C05/C06); the piecewise structure is decided for every solstice pillar')
     ctx.not_decided.append('day star before the first turning day of a civil year (belongs to the previous year\'s descending run): only the -1/day recurrence is decided')
